@@ -207,9 +207,18 @@ def base_coq(b):
     raise ValueError(b)
 
 
+ATTR_NAMES = ["__class__", "no_such_attr_"]  # hasattr() names (Coq: HasAttrExt index)
+
+
+def ext_coq(k, n):
+    if k == "hasattr":
+        return f"HasAttrExt {lib.cn(ATTR_NAMES.index(n))}"
+    return ("MinLen " if k == "min" else "MaxLen ") + lib.cz(n)
+
+
 def sval_coq(s):
     b, exts = s
-    return f"(SV {base_coq(b)} " + lib.clist([("MinLen " if k == "min" else "MaxLen ") + lib.cz(n) for k, n in exts]) + ")"
+    return f"(SV {base_coq(b)} " + lib.clist([ext_coq(k, n) for k, n in exts]) + ")"
 
 
 def value_coq(v):
@@ -259,7 +268,14 @@ def sval_value(s):
     b, exts = s
     v = base_value(b)
     if exts:
-        v = AnnotatedValue(v, [CustomCheckExtension(MinLen(n) if k == "min" else MaxLen(n)) for k, n in exts])
+        from pyanalyze.value import AnySource, AnyValue, HasAttrExtension, KnownValue
+
+        def ext_value(k, n):
+            if k == "hasattr":
+                return HasAttrExtension(KnownValue(n), AnyValue(AnySource.inference))
+            return CustomCheckExtension(MinLen(n) if k == "min" else MaxLen(n))
+
+        v = AnnotatedValue(v, [ext_value(k, n) for k, n in exts])
     return v
 
 
@@ -298,6 +314,8 @@ def decode_sval(v):
         for m in v.metadata:
             if isinstance(m, CustomCheckExtension) and type(m.custom_check) in (MinLen, MaxLen) and isinstance(m.custom_check.value, int):
                 exts.append(("min" if type(m.custom_check) is MinLen else "max", m.custom_check.value))
+            elif type(m).__name__ == "HasAttrExtension" and getattr(m.attribute_name, "val", None) in ATTR_NAMES:
+                exts.append(("hasattr", m.attribute_name.val))
             else:
                 raise OutOfFragment(f"metadata {m!r}")
         v = v.value
@@ -341,9 +359,9 @@ def norm(t):
 
 def unpack(n):
     """inverse of the Coq `pack`: (member V, holds (None/bool) as ("Some", b) or None, (in Np, in Nn), (clauses), guard)"""
-    bits = [(n >> k) & 1 == 1 for k in range(11)]
+    bits = [(n >> k) & 1 == 1 for k in range(12)]
     holds = ("Some", bits[1]) if bits[2] else None
-    return (bits[0], holds, (bits[3], bits[4]), (bits[5], bits[6], bits[7], bits[8], bits[9]), bits[10])
+    return (bits[0], holds, (bits[3], bits[4]), (bits[5], bits[6], bits[7], bits[8], bits[9], bits[10]), bits[11])
 
 
 def model_lit(t):
@@ -409,7 +427,7 @@ def model_sval(t):
             base = ("gen", ("dict", rety[g[1]], rety[g[2]]))
     else:
         raise ValueError(b)
-    exts = tuple(("min" if e[0] == "MinLen" else "max", e[1]) for e in t[2])
+    exts = tuple(("hasattr", ATTR_NAMES[e[1]]) if e[0] == "HasAttrExt" else ("min" if e[0] == "MinLen" else "max", e[1]) for e in t[2])
     return (base, exts)
 
 
@@ -573,6 +591,12 @@ def cond_coq(c):
         return "(CMapKeys " + lib.clist([f"({elt_coq(a)}, {epat_coq(b)})" for a, b in c[1]]) + ")"
     if k == "pand":
         return f"(CPAnd {cond_coq(c[1])} {cond_coq(c[2])})"
+    if k == "assertinst":
+        return f"(CAssertInst {U.COQ_CLS[c[1]]})"
+    if k == "assertis":
+        return f"(CAssertIs {lit_coq(c[1])})"
+    if k == "hasattr":
+        return f"(CHasAttr {lib.cn(ATTR_NAMES.index(c[1]))} {lib.cbool(c[2])})"
     if k == "truthy":
         return "CTruthy"
     if k == "isinstance":
@@ -649,6 +673,12 @@ def py_holds(c, o):
                     return False
         if k == "always":
             return True
+        if k == "assertinst":
+            return isinstance(o, U.CLASSES[c[1]])
+        if k == "assertis":
+            return o is lit_py(c[1])
+        if k == "hasattr":
+            return hasattr(o, c[1])
         if k == "seqis":
             return py_match(("p_seq", (), True, ()), o)
         if k == "mapis":
@@ -699,6 +729,10 @@ def tested_of(c):
         return tested_of(expand(c[1]))
     if k == "pand":
         return tested_of(c[1]) + tested_of(c[2])
+    if k == "assertinst":
+        return ((("typed", c[1]), ()),)
+    if k == "assertis":
+        return ((("known", c[1]), ()),)
     if k == "seqis":
         return ((("gen", ("seqpat",)), ()),)
     if k == "seqlen":
@@ -796,6 +830,8 @@ def py_member_s(o, s):
     if not r:
         return False
     for kind, n in exts:
+        if kind == "hasattr":
+            continue
         try:
             ln = len(o)
         except Exception:
@@ -859,6 +895,14 @@ def build_constraint(c, varname):
     P = ConstraintType.predicate
     if k == "pat":
         return build_constraint(expand(c[1]), varname)
+    if k == "assertinst":
+        return Constraint(varname, ConstraintType.is_instance, True, U.CLASSES[c[1]])
+    if k == "assertis":
+        return Constraint(varname, ConstraintType.is_value, True, lit_py(c[1]))
+    if k == "hasattr":
+        from pyanalyze.value import AnySource, AnyValue, HasAttrExtension, KnownValue
+
+        return Constraint(varname, ConstraintType.add_annotation, True, HasAttrExtension(KnownValue(c[1]), AnyValue(AnySource.inference)))
     if k == "seqis":
         from pyanalyze.patma import MatchableSequence
 
@@ -974,6 +1018,8 @@ def cond_src(c, defs, idx):
         return f"{name}(x)"
     if k == "opaque":
         return "opq()"
+    if k == "hasattr":
+        return f'hasattr(x, "{c[1]}")'
     if k == "not":
         e = cond_src(c[1], defs, idx)
         return None if e is None else f"not ({e})"
@@ -1030,7 +1076,13 @@ def case_src(i, v, c):
     if ann is None or not well_typed(v, c):
         return None
     defs = []
-    if c[0] == "pat":
+    if c[0] == "assertinst":
+        body = f"    assert_is_instance(x, {c[1]})\n    M1 = x\n"
+    elif c[0] == "assertis":
+        body = f"    assert_is(x, {lit_src(c[1])})\n    M1 = x\n"
+    elif c[0] == "not" and c[1][0] == "assertis":
+        body = f"    assert_is_not(x, {lit_src(c[1][1])})\n    M1 = x\n"
+    elif c[0] == "pat":
         body = f"    match x:\n        case {pat_src(c[1])}:\n            M1 = x\n        case _:\n            M2 = x\n"
     elif c[0] == "matchclass":
         body = f"    match x:\n        case {c[1]}():\n            M1 = x\n        case _:\n            M2 = x\n"
@@ -1044,7 +1096,7 @@ def case_src(i, v, c):
     return "".join(defs) + f"def f_{i}(x: {ann}):\n" + body
 
 
-PRELUDE = ("from typing import Any, Literal, Type, Union\nfrom collections.abc import Mapping, Sequence\nfrom typing_extensions import TypeGuard, TypeIs\nfrom c02_universe import *\n"
+PRELUDE = ("from typing import Any, Literal, Type, Union\nfrom collections.abc import Mapping, Sequence\nfrom qcore.asserts import assert_is, assert_is_instance, assert_is_not\nfrom typing_extensions import TypeGuard, TypeIs\nfrom c02_universe import *\n"
            "def opq() -> bool:\n    raise NotImplementedError\n")
 
 
@@ -1153,6 +1205,10 @@ def all_leaves():
     out.append(("always",))
     out += [("opaque", True), ("opaque", False)]
     out += [("pat", p) for p in all_patterns()]
+    # assert-style constraint types (is_instance, is_value, add_annotation)
+    out += [("assertinst", c) for c in ("int", "float", "bool", "str", "A", "B", "C", "tuple", "object", "type", "EnumMeta", "list")]
+    out += [("assertis", l) for l in SINGLETON_LITS] + [("not", ("assertis", l)) for l in SINGLETON_LITS[:4]]
+    out += [("hasattr", "__class__", True), ("hasattr", "no_such_attr_", False)]
     # the parts of a sequence / mapping pattern on their own (constrain_value route only)
     out += [("seqis", True), ("seqis", False), ("mapis", True), ("mapis", False)]
     out += [("seqlen", n, star) for n in (0, 1, 2, 3) for star in (False, True)]
@@ -1216,6 +1272,7 @@ FINDINGS = {
     "multiple_inheritance": "C02-multiple-inheritance",
     "enum_class_object": "C02-enum-class-literal",
     "sequence_pattern_str": "C02-sequence-pattern-str",
+    "assert_promotion": "C02-assert-promotion",
 }
 COQ_HEADER = ("From Coq Require Import ZArith List Bool NArith. Import ListNotations.\n"
               "Require Import PV.Narrow.Base PV.Narrow.Model PV.Narrow.Guards.\n"
@@ -1306,11 +1363,11 @@ def run(tier: str, replay: str | None = None):
                 "let Np := narrow V c true in let Nn := narrow V c false in "
                 "(Np, Nn, boolab_of V, map (fun (oi : obj * (bool * bool * bool)) => let '(o, (sb, mi, wf)) := oi in "
                 "let h := holds c o in let pn := promotion_negative c o in let ec := enum_class_object o in "
-                "let ss := sequence_pattern_str c o in pack "
+                "let ss := sequence_pattern_str c o in let ap := assert_promotion c o in pack "
                 "[member o V; match h with Some b => b | None => false end; "
                 "match h with Some _ => true | None => false end; "
-                "member o Np; member o Nn; pn; sb; mi; ec; ss; "
-                "wf && cond_ok c o && negb mi && negb sb && negb pn && negb ec && negb ss]) UNIV_INFO))"
+                "member o Np; member o Nn; pn; sb; mi; ec; ss; ap; "
+                "wf && cond_ok c o && negb mi && negb sb && negb pn && negb ec && negb ss && negb ap]) UNIV_INFO))"
             )
         try:
             model = norm(lib.coq_eval(COQ_HEADER + ulist, terms, name="c02", shard=150, jobs=6))
@@ -1420,7 +1477,7 @@ def run(tier: str, replay: str | None = None):
         attributed = None
         if model is not None and kind in ("lost", "always_true_wrong"):
             mo = unpack(model[i][3][j])
-            clauses = dict(zip(("promotion_negative", "subclass_bool", "multiple_inheritance", "enum_class_object", "sequence_pattern_str"), mo[3]))
+            clauses = dict(zip(("promotion_negative", "subclass_bool", "multiple_inheritance", "enum_class_object", "sequence_pattern_str", "assert_promotion"), mo[3]))
             if kind == "lost":
                 impl_out = api[i][0 if pol else 1] if rname == "api" else e2e[i][0 if pol else 1]
                 mout = model_value(model[i][0 if pol else 1])
